@@ -22,6 +22,7 @@ def apply() -> None:
     _e2_dollar()
     _e5_format()
     _e8_no_shortcircuit()
+    _e9_concrete_dict_keys()
     install_stats()
 
 
@@ -124,6 +125,40 @@ def _e8_no_shortcircuit() -> None:
     from crosshair import core
 
     core.consider_shortcircuit = lambda *a, **k: None
+
+
+# ---------------------------------------------------------------------------------------------
+# E9: `d[key]` on a real dict with a non-atomic key (a tuple, an object) is answered by a linear `==` scan
+# (SimpleDict), i.e. without hashing.  That equals CPython only if __eq__ is consistent with __hash__;
+# a Sid equals its plain string but hashes differently, so the cache key (Sid('t:x'),) wrongly hits the entry
+# of ('x',).  Deeply concrete keys are therefore looked up natively (their __hash__ runs as in CPython).
+def _e9_concrete_dict_keys() -> None:
+    from crosshair import opcode_intercept as oi
+
+    atoms = (str, int, float, bool, bytes, type(None))
+
+    def deeply_concrete(k, depth=0) -> bool:
+        t = type(k)
+        if t in atoms:
+            return True
+        if t in (tuple, frozenset) and depth < 4:
+            return all(deeply_concrete(x, depth + 1) for x in k)
+        if getattr(t, "__module__", "").startswith("spil.") and hasattr(k, "_string"):
+            return type(getattr(k, "_string", None)) is str and type(getattr(k, "_type", "")) is str
+        return False
+
+    orig = oi.SymbolicSubscriptInterceptor.trace_op
+
+    def trace_op(self, frame, codeobj, codenum):
+        try:
+            key = oi.frame_stack_read(frame, -1)
+            if type(key) is tuple and type(oi.frame_stack_read(frame, -2)) is dict and deeply_concrete(key):
+                return
+        except Exception:
+            pass
+        return orig(self, frame, codeobj, codenum)
+
+    oi.SymbolicSubscriptInterceptor.trace_op = trace_op
 
 
 # ---------------------------------------------------------------------------------------------
